@@ -425,6 +425,21 @@ impl<'a> Searcher<'a> {
                 let buffer_partitions = buffer_partitions.iter().collect::<Vec<_>>();                 
                 
                 let mut results = vec![];
+
+                let select_names = self
+                    .query
+                    .fields
+                    .iter()
+                    .map(|f| f.to_string().to_lowercase())
+                    .collect::<Vec<String>>();
+                let hidden_order_fields = self
+                    .query
+                    .ordering_fields
+                    .iter()
+                    .filter(|f| !select_names.contains(&f.to_string().to_lowercase()))
+                    .cloned()
+                    .collect::<Vec<Expr>>();
+                let shown = select_names.len();
                 
                 buffer_partitions.iter().for_each(|f| {
                     let mut items: Vec<(String, String)> = Vec::new();
@@ -449,6 +464,15 @@ impl<'a> Searcher<'a> {
                         items.push((field_name, record));
                     }
 
+                    // ORDER BY keys that are not selected are computed too (they are not printed)
+                    for order_expr in hidden_order_fields.iter() {
+                        let record = format!(
+                            "{}",
+                            self.get_column_expr_value(None, &None, &mut file_map, Some(f.1), order_expr)
+                        );
+                        items.push((order_expr.to_string().to_lowercase(), record));
+                    }
+
                     results.push(items);
                 });
 
@@ -460,16 +484,14 @@ impl<'a> Searcher<'a> {
                         .map(|f| f.to_string().to_lowercase())
                         .collect::<Vec<String>>();
                     let directions = self.query.ordering_asc.clone();
+                    let sorting_names = select_names
+                        .iter()
+                        .cloned()
+                        .chain(hidden_order_fields.iter().map(|f| f.to_string().to_lowercase()))
+                        .collect::<Vec<String>>();
                     let sorting_indices = ordering_fields
                         .iter()
-                        .map(|f| {
-                            self.query
-                                .fields
-                                .iter()
-                                .map(|f| f.to_string().to_lowercase())
-                                .position(|g| &g == f)
-                                .unwrap_or(0)
-                        })
+                        .map(|f| sorting_names.iter().position(|g| g == f).unwrap_or(0))
                         .collect::<Vec<usize>>();
 
                     results.sort_by(|a, b| {
@@ -522,7 +544,7 @@ impl<'a> Searcher<'a> {
                     } else {
                         let _ = self.results_writer.write_row_separator(&mut buf);
                     }
-                    let _ = self.results_writer.write_row(&mut buf, items.to_owned());
+                    let _ = self.results_writer.write_row(&mut buf, items[..shown].to_vec());
                     let _ = write!(std::io::stdout(), "{}", String::from(buf));
                 });
             } else {
